@@ -181,6 +181,8 @@ fn func_random(ctx: &EvalContext, args: &[Expr]) -> Result<i64, ExprError> {
     if max < 2 {
         return Err(ExprErrorKind::EmptyRandomRange(max).into());
     }
+    #[cfg(feature = "verif-hooks")]
+    let ctx = &crate::verif_hooks::LoggedCtx { ctx, bound: max };
     Ok(ctx.random(1..max))
 }
 
